@@ -166,6 +166,8 @@ def sig_of(info, extra=None):
         s["ten_or_more_blocks"] = d["n_blocks"] >= 10
     if fmt in ("GeoJSON", "Shapefile") and "n_multipolygons" in d:
         s["has_multipolygon"] = d["n_multipolygons"] > 0
+    if "extra_width" in d:
+        s["wider_than_widest_face"] = d["extra_width"] > 0
     if extra:
         s.update(extra)
     return s
